@@ -1105,11 +1105,12 @@ def loop_built(fn, l):
         if any(a.get('k') in ('Copy', 'Move') and a['place']['local'] in mtemps for a in c['term']['args']):
             writes.append(c)
     pushes = [c for c in writes if c['path'].endswith('Vec::<T, A>::push')]
-    if len(pushes) != 1 or len(writes) != 1:
+    if not pushes or len(pushes) != len(writes) or len(pushes) > 6:
         return None
+    pbs = {c['block'] for c in pushes}
     pb = pushes[0]['block']
     from_loops = [L for L in fn.loops() if pb in L[1]]
-    if len(from_loops) != 1:
+    if len(from_loops) != 1 or not all(b_ in from_loops[0][1] for b_ in pbs) or any(len([L for L in fn.loops() if b_ in L[1]]) != 1 for b_ in pbs):
         return None
     h, body, latches = from_loops[0]
     drv = None
@@ -1134,28 +1135,32 @@ def loop_built(fn, l):
         elif re.match(r"^std::vec::IntoIter<", sty):
             it = _call('std::iter::IntoIterator::into_iter', [inner])
     # does every trip push?  a trip may skip the push (continue) -> filtered
-    stack, seen, skipping = [s_ for s_ in fn.succ(h) if s_ in body and s_ != pb], set(), False
+    stack, seen, skipping = [s_ for s_ in fn.succ(h) if s_ in body and s_ not in pbs], set(), False
     while stack:
         x = stack.pop()
         if x == h:
             skipping = True
             break
-        if x in seen or x == pb:
+        if x in seen or x in pbs:
             continue
         seen.add(x)
-        stack.extend(s_ for s_ in fn.succ(x) if s_ in body and s_ != pb)
-    # exactly one push per trip: the push block cannot reach itself without passing the header
-    stack, seen = [s_ for s_ in fn.succ(pb) if s_ in body], set()
-    while stack:
-        x = stack.pop()
-        if x == pb:
-            return None
-        if x in seen or x == h:
-            continue
-        seen.add(x)
-        stack.extend(s_ for s_ in fn.succ(x) if s_ in body)
+        stack.extend(s_ for s_ in fn.succ(x) if s_ in body and s_ not in pbs)
+    # at most one push per trip: no push block can reach a push block (itself or another: the arms of a match are exclusive)
+    # without passing the header
+    for p0 in pbs:
+        stack, seen = [s_ for s_ in fn.succ(p0) if s_ in body], set()
+        while stack:
+            x = stack.pop()
+            if x in pbs:
+                return None
+            if x in seen or x == h:
+                continue
+            seen.add(x)
+            stack.extend(s_ for s_ in fn.succ(x) if s_ in body)
     elem = fn.expr_of_operand(pushes[0]['term']['args'][1])
-    memo[l] = dict(source=it, elem=elem, push=pb, loop=(h, body, latches), filtered=skipping, driver=drv[0], init=init)
+    arms = [(c['block'], fn.expr_of_operand(c['term']['args'][1])) for c in sorted(pushes, key=lambda c: c['block'])]
+    memo[l] = dict(source=it, elem=elem, push=pb, pushes=sorted(pbs), arms=arms if len(arms) > 1 else None, loop=(h, body, latches), filtered=skipping,
+                   driver=drv[0], init=init)
     return memo[l]
 
 
@@ -1164,6 +1169,7 @@ def loop_skip_paths(fn, lb, limit=64):
     (switch condition, edge label) conjunctions (the loop driver's own test and `?` propagation are not conditions)"""
     h, body, _ = lb['loop']
     pb = lb['push']
+    pbs_ = set(lb.get('pushes') or [pb])
     sw = {s_['block']: s_ for s_ in fn.switches()}
     out = []
 
@@ -1173,7 +1179,7 @@ def loop_skip_paths(fn, lb, limit=64):
         if b == h:
             out.append(conds)
             return
-        if b == pb or b in seen or b not in body:
+        if b in pbs_ or b in seen or b not in body:
             return
         s_ = sw.get(b)
         if s_ is not None:
